@@ -1579,11 +1579,51 @@ func dominatingStore(load *ssa.UnOp, a *ssa.Alloc) *ssa.Store {
 			continue
 		}
 		after := st.Block() == rs[0].St.Block() && instrIndex(st) > instrIndex(rs[0].St) || st.Block() != rs[0].St.Block() && reachableBlocks(rs[0].St.Block())[st.Block()]
-		before := st.Block() == load.Block() || reachableBlocks(st.Block())[load.Block()]
+		before := false
+		if st.Block() == load.Block() {
+			before = instrIndex(st) < instrIndex(load)
+			for _, su := range st.Block().Succs { // or the block lies on a cycle
+				if reachableBlocks(su)[st.Block()] {
+					before = true
+				}
+			}
+		} else {
+			before = reachableBlocks(st.Block())[load.Block()]
+		}
 		if after && before {
 			return nil
 		}
 	}
 	res = rs[0].St
 	return res
+}
+
+
+// valueLeaves: the alternatives a value is chosen from, each with the facts
+// known where it is chosen — the incoming edges of a phi, or, for a variable
+// that go/ssa kept in a local cell (named results of a function with a defer),
+// the stores that reach the load. A plain value is its own single leaf.
+func valueLeaves(v ssa.Value) []phiLeaf {
+	switch x := v.(type) {
+	case *ssa.Phi:
+		var out []phiLeaf
+		for i, e := range x.Edges {
+			pr := x.Block().Preds[i]
+			out = append(out, phiLeaf{e, append(append([]Fact(nil), FactsAtBlock(pr)...), edgeOnlyFacts(pr, x.Block())...)})
+		}
+		return out
+	case *ssa.UnOp:
+		if x.Op == token.MUL {
+			if _, ok := x.X.(*ssa.Alloc); ok {
+				if rs := reachingStores(x); len(rs) >= 2 {
+					var out []phiLeaf
+					for _, rd := range rs {
+						out = append(out, phiLeaf{rd.St.Val, rd.Facts})
+					}
+					return out
+				}
+			}
+		}
+	}
+	return []phiLeaf{{v, nil}}
 }
